@@ -1,4 +1,6 @@
 
+val xorb : bool -> bool -> bool
+
 val negb : bool -> bool
 
 type nat =
@@ -540,6 +542,52 @@ val last_is_rparen : n list -> bool
 val render_exp : mode -> expectation -> n list
 
 val matches_content : rule -> n list -> bool option
+
+val ends_in_newline : n list -> bool
+
+val assure_newline : n list -> n list
+
+val m_equal : n list -> n list -> bool
+
+val m_noeol : n list -> n list -> bool
+
+val m_escaped : n list -> n list -> bool
+
+val sTAR : n
+
+val qM : n
+
+val glob_match : n list -> n list -> bool
+
+type re =
+| Emp
+| Eps
+| Chr of n
+| Any
+| Cls of bool * n list
+| Seq of re * re
+| Alt of re * re
+| Star of re
+
+val cls_has : bool -> n list -> n -> bool
+
+val nullable : re -> bool
+
+val deriv : n -> re -> re
+
+val full : re -> n list -> bool
+
+val cram_glob_re_aux : nat -> n list -> re
+
+val cram_glob_re : n list -> re
+
+val is_meta : n -> bool
+
+val lit : n -> n list
+
+val print : re -> n list
+
+val print_top : re -> n list
 
 val make_exp : bool -> bool -> (nat -> bool) -> nat exp
 
